@@ -76,6 +76,10 @@ def gen_elem(rng, depth, prot=False):
         # the same characters written as a CDATA section (no references are interpreted inside one) or escaped
         if c and "]]>" not in c and rng.random() < 0.2:
             return "<![CDATA[" + c + "]]>"
+        if len(c) >= 3 and "]]>" not in c and rng.random() < 0.2:
+            # a CDATA section in the middle of character data: one text for the data model, however it was written
+            i = rng.randrange(1, len(c) - 1); j = rng.randrange(i + 1, len(c) + 1)
+            return escape(c[:i]) + "<![CDATA[" + c[i:j] + "]]>" + escape(c[j:])
         return escape(c)
     s += ">" + text(chunks[0])
     for k, c in zip(kids, chunks[1:]):
